@@ -36,7 +36,7 @@ META = {
             '(C03/C19) and resumption (C13) are inputs of the model.',
     'technique': 'Rocq/Coq proof over hand model + translator-regenerated verify-bytes and site table + live correspondence',
 }
-MODEL_TARGETS = ['Base/C05_Lib.vo', 'Gen/C05_VerifyBytes.vo', 'Model/C05_Auth.vo']
+MODEL_TARGETS = ['Base/C05_Lib.vo', 'Gen/C05_VerifyBytes.vo', 'Model/C05_Auth.vo', 'Gen/C05_DsaVerify.vo', 'Model/C05_SigGuard.vo']
 IMPORTS = ['Base.C05_Lib', 'Gen.C05_VerifyBytes', 'Model.C05_Auth']
 PREAMBLE = '''
 Definition CaseT := (Z * Answers * Run * bool * option (list Z) * Z * option (list Z) * option (list Z) * bool)%type.
@@ -168,6 +168,33 @@ def gen_cases(ctx):
             for how in ['honest', 'other-key', 'bad-finished']:
                 add(runner='cert', site='keytransport', ver=ver, verifier='client', key='rsa', how=how, target='ske',
                     peer_settings={'keyExchangeNames': ['rsa']}, verifier_settings={'keyExchangeNames': ['rsa']})
+        # algebraic edge signatures at every signature site (r or s in {0, 1, q-1, q, q+1, +q}, negative /
+        # non-minimal DER integers, trailing bytes; EdDSA S >= L, S = 0; RSA 0, 1, n-1, n, s+n, wrong length).
+        # The expected verdict is the REFERENCE verifier's (harness/c05_refsig.py), e.g. ECDSA (r, n-s) is valid.
+        import c05_refsig as R
+        KT = {'dsa': 'dsa', 'client-dsa': 'dsa', 'ed25519': 'Ed25519', 'ed448': 'Ed448', 'client-ed25519': 'Ed25519'}
+
+        def kt_of(k):
+            return KT.get(k, 'ecdsa' if ('ecdsa' in k or k.startswith('bp')) else 'rsa')
+        for key in ['rsa', 'rsapss', 'ecdsa', 'ecdsa384', 'ed25519', 'ed448', 'bp256']:
+            for e in R.edge_names(kt_of(key)):
+                add(runner='cert', site='cv13s', ver=(3, 4), verifier='client', key=key, how='edge:' + e, target='cv')
+        for key in ['client-rsa', 'client-ecdsa', 'client-ed25519']:
+            for e in R.edge_names(kt_of(key)):
+                add(runner='cert', site='cv13c', ver=(3, 4), verifier='server', key=key, how='edge:' + e, target='cv')
+                if e != 'q-s':      # a still-valid CertificateVerify changed after the peer computed its PHA Finished
+                    add(runner='pha', site='pha', ver=(3, 4), key=key, how='edge:' + e)
+        for ver in [(3, 1), (3, 3)]:
+            for key in ['client-rsa', 'client-ecdsa', 'client-dsa'] + (['client-ed25519'] if ver == (3, 3) else []):
+                if quick and ver == (3, 1) and kt_of(key) != 'dsa':
+                    continue
+                for e in R.edge_names(kt_of(key)):
+                    add(runner='cert', site='cv12', ver=ver, verifier='server', key=key, how='edge:' + e, target='cv')
+            for key in ['rsa', 'ecdsa', 'dsa'] + (['ed25519', 'rsapss'] if ver == (3, 3) else []):
+                if quick and ver == (3, 1) and kt_of(key) != 'dsa':
+                    continue
+                for e in R.edge_names(kt_of(key)):
+                    add(runner='cert', site='ske', ver=ver, verifier='client', key=key, how='edge:' + e, target='ske')
         # scheme that was not offered
         for key, mine, theirs in [('rsa', {'rsaSigHashes': ['sha256']}, (8, 5)), ('rsa', {}, (4, 1)), ('rsa', {}, (2, 1)),
                                   ('ecdsa384', {'ecdsaSigHashes': ['sha256', 'sha512']}, (5, 3)), ('rsapss', {'rsaSigHashes': ['sha256']}, (8, 10))]:
@@ -267,10 +294,47 @@ def property_oracle(ctx, case, o):
     return ctx.violation(key, what, rep)
 
 
+def dsa_tail_cases(ctx, n_random):
+    """translation validation of Gen/C05_DsaVerify.v: Python_DSAKey.verify of /repo called directly on
+    honest, edge and random (r, s) for the DSA test keys; the generated tail is run on the same numbers"""
+    import loop
+    import c05_peers  # noqa (registers extra credentials)
+    import c05_refsig as R
+    rng = ctx.rng
+    out = []
+    for name in ('dsa', 'client-dsa'):
+        chain, key = loop.creds(name)
+        pub = chain.getEndEntityPublicKey()
+        p, q, g, y = R.dsa_numbers(pub)
+        nbits = q.bit_length()
+        for hl in (20, 32, 36, 64):
+            digest = bytes(rng.randrange(256) for _ in range(hl))
+            honest = bytes(key.sign(bytearray(digest)))
+            sigs = [('honest', honest)]
+            for e in R.EDGE_RS:
+                if e in ('pad-r', 'pad-s', 'trailer', 'neg-s', 'neg-r'):
+                    continue                      # rejected by the DER layer before the modelled tail
+                sigs.append((e, R.edge_signature(pub, 'dsa', honest, e)))
+            for _ in range(n_random):
+                sigs.append(('random', R.der_rs(rng.randrange(0, q + 2), rng.randrange(0, q + 2))))
+            sigs.append(('other-digest', honest))
+            for tag, sg in sigs:
+                d = digest if tag != 'other-digest' else bytes(rng.randrange(256) for _ in range(hl))
+                z = int.from_bytes(d, 'big')
+                if len(d) * 8 > nbits:
+                    z >>= len(d) * 8 - nbits
+                r, s_ = R.parse_der_rs(sg)
+                impl = bool(pub.verify(bytearray(sg), bytearray(d)))
+                ref = R.ref_dsa_verify(pub, d, sg)
+                out.append({'key': name, 'tag': tag, 'hl': hl, 'nums': (p, q, g, y, z, r, s_), 'impl': impl, 'ref': ref,
+                            'sig': bytes(sg).hex(), 'digest': d.hex()})
+    return out
+
+
 def run(ctx):
     quick = ctx.tier == 'quick'
     tie_broken = None
-    for unit in ('C05_VerifyBytes', 'C05_Sites'):
+    for unit in ('C05_VerifyBytes', 'C05_Sites', 'C05_DsaVerify'):
         ok, msg = units.generate(unit, vlib.COQ)
         ctx.log('translator %s: %s' % (unit, msg))
         if not ok:
@@ -325,6 +389,46 @@ def run(ctx):
             ctx.log('model/impl disagreement: %s %s %s %s code=%s ident=%s' % (o['site'], o['ver'], o['key'], o['how'], o['code'], o['ident']))
             if not found:
                 tie_broken = 'model disagrees with implementation on %s %s %s %s (impl code %s)' % (o['site'], o['ver'], o['key'], o['how'], o['code'])
+        # ---- generated DSA verification tail on real key numbers + the primitive against the reference
+        dcs = dsa_tail_cases(ctx, 3 if quick else 20)
+        for d in dcs:
+            ctx.count('dsa-verify:impl-vs-reference', 1, [(d['key'], d['tag'], d['hl'], d['impl'])])
+            if d['impl'] != d['ref']:
+                if ctx.violation('dsa-verify!=FIPS186-4:%s' % d['tag'],
+                                 'Python_DSAKey.verify returns %r but FIPS 186-4 4.7 says %r for key %s, signature %s over digest %s'
+                                 % (d['impl'], d['ref'], d['key'], d['sig'], d['digest']),
+                                 {'dsa_case': {k: (list(v) if isinstance(v, tuple) else v) for k, v in d.items()},
+                                  'how': 'loop.creds(key)[0].getEndEntityPublicKey().verify(bytes.fromhex(sig), bytes.fromhex(digest))'}):
+                    found = True
+        import math
+
+        def dsa_lit(d):
+            p_, q_, g_, y_, z_, r_, s_ = d['nums']
+            # the mathematical invMod / powMod on every argument the honest tail can ask for
+            w = pow(s_, -1, q_) if (q_ > 0 and math.gcd(s_ % q_, q_) == 1) else 0
+            u1, u2 = (z_ * w) % q_, (r_ * w) % q_
+            ti = '[(%s, %s, %s)]' % (zlit(s_), zlit(q_), zlit(w))
+            tp = '[(%s, %s, %s, %s); (%s, %s, %s, %s)]' % (zlit(g_), zlit(u1), zlit(p_), zlit(pow(g_, u1, p_)),
+                                                          zlit(y_), zlit(u2), zlit(p_), zlit(pow(y_, u2, p_)))
+            return '(%s, %s, (%s), %s)' % (ti, tp, ', '.join(zlit(x) for x in d['nums']), boollit(d['impl']))
+        # Z.modulo on 4096-bit products costs seconds per case under vm_compute: the quick tier runs the generated
+        # tail on a fixed small selection (every branch of the guard), the thorough tier on all cases
+        if quick:
+            sel = [d for d in dcs if (d['key'] == 'client-dsa' and d['hl'] == 20) or
+                   (d['key'] == 'dsa' and d['hl'] == 32 and d['tag'] in ('honest', 'r1-s0', 's=q'))]
+            dcs_eval = sel[:16]
+        else:
+            dcs_eval = dcs
+        dl = [dsa_lit(d) for d in dcs_eval]
+        badd, errs = vlib.coq_bad_indices('C05d', ['Gen.C05_DsaVerify', 'Model.C05_SigGuard'],
+                                          '(list (Z * Z * Z) * list (Z * Z * Z * Z) * (Z * Z * Z * Z * Z * Z * Z) * bool)',
+                                          'dsa_case_ok', dl, shard=max(1, (len(dl) + 15) // 16), timeout=2400)
+        ctx.count('dsa-tail-model-vs-impl(vm_compute)', len(dl), [('agree', len(dl) - len(badd))])
+        for e in errs:
+            tie_broken = 'DSA tail evaluation failed: ' + e[:300]
+        for i in badd[:3]:
+            if not found:
+                tie_broken = 'generated dsa_verify_tail disagrees with Python_DSAKey.verify on %s %s' % (dcs_eval[i]['key'], dcs_eval[i]['tag'])
     elif not res['model_ok']:
         tie_broken = tie_broken or ('model does not compile: %s' % res['failing'])
     ctx.cov['rule'] = ('cases = proof site x corruption class x key type x version (live handshake with a wrapped peer); '
